@@ -254,8 +254,15 @@ class FatIO(io.RawIOBase):
                     break
 
             # Update file size
+            old_size = self.dir_entry.filesize
             self.dir_entry.filesize = size
-            self.fs.update_directory_entry(self.dir_entry.get_parent_dir())
+            try:
+                self.fs.update_directory_entry(
+                    self.dir_entry.get_parent_dir())
+            except Exception:
+                # Nothing has been written, keep reporting the old size
+                self.dir_entry.filesize = old_size
+                raise
             if cur_pos > size:
                 # The cursor may point into the released part of the chain
                 self.seek(size)
